@@ -2,3 +2,4 @@
 import RagcModel.Model.Kmer
 import RagcModel.Model.Tuple
 import RagcModel.Model.SegCompress
+import RagcModel.Model.Pipeline
